@@ -36,6 +36,7 @@ def main(argv=None) -> int:
 
     pid = a.pid.upper()
     seed = int(os.environ.get("VERIF_SEED", "0") or 0)
+    ctx = None
     try:
         prog = Program(a.repo) if a.repo else Program()
         ctx = Ctx(pid, a.tier, seed, prog)
@@ -57,6 +58,15 @@ def main(argv=None) -> int:
         return rc
     except AnalysisError as e:
         print(f"ANALYSIS-ERROR: property={pid} {e}")
+        try:
+            # obligations already refuted on positive evidence stand, whatever else could not be decided
+            if ctx is not None and ctx.findings:
+                ctx.info(f"analysis incomplete: {e}")
+                rc = ctx.finish()
+                if rc == 1:
+                    return 1
+        except Exception:
+            pass
         return 2
     except Exception:
         traceback.print_exc()
